@@ -22,6 +22,7 @@ UNITS = {
     "u22_loadnext": {"verus": "specs/u22_loadnext.vt.rs"},
     "u23_exid_order": {"verus": "specs/u23_exid_order.vt.rs"},
     "u24_changeparse": {"verus": "specs/u24_changeparse.vt.rs"},
+    "u25_syncstate": {"verus": "specs/u25_syncstate.vt.rs"},
 }
 CHUNK = "rust/automerge/src/storage/chunk.rs"
 EXID = "rust/automerge/src/exid.rs"
@@ -81,6 +82,8 @@ HARNESSES = {
     "u05_flags_set_contains": {"crate": "automerge", "file": "rust/automerge/src/sync.rs", "fn": "MessageFlags::set, MessageFlags::contains, MessageFlags::new", "mode": "complete", "bound": "all u8 x single-bit flags (loop-free)"},
     "u05_flags_parse_bytes": {"crate": "automerge", "file": "rust/automerge/src/sync.rs", "fn": "MessageFlags::parse_bytes", "mode": "bounded", "bound": "all flag sections of <= 3 bytes"},
     "u05_encode_many_prefix": {"crate": "automerge", "file": "rust/automerge/src/sync.rs", "fn": "encode_many (count prefix of encode_hashes / Message::encode / State::encode)", "mode": "complete", "bound": "all usize element counts (element source reports a symbolic len and yields nothing; LEB128 loops bounded by the 10-byte width)"},
+    "u05_message_encode_skeleton": {"crate": "automerge", "file": "rust/automerge/src/sync.rs", "fn": "Message::encode (with MessageVersion::encode, MessageFlags::encode, encode_many)", "mode": "bounded", "timeout_s": 900,
+                                    "bound": "all four lists empty; every version x flags combination"},
     "u05_set_read_only_transitions": {"crate": "automerge", "file": "rust/automerge/src/sync/state.rs", "fn": "State::set_read_only", "mode": "bounded", "bound": "all flag combinations; container fields empty or one capability"},
     # ---- U06 hexane
     "u06_leb_unsigned_roundtrip": {"crate": "hexane", "file": "rust/hexane/src/codec.rs", "fn": "Leb128::encode_unsigned, read_unsigned, try_read_unsigned, unsigned_len, unsigned_size, ulebsize, VarBuf::push, VarBuf::as_bytes", "mode": "complete", "bound": "all u64 (loops bounded by the 10-byte width, unwind 12 with unwinding assertions)"},
@@ -283,13 +286,14 @@ PROPERTIES.update({
     },
     "C19": {
         "level": "proof",
-        "verus": [("u04_ids", ["exid_to_opid", "op_cursor_to_opid", "get_actor_safe", "new"]),
+        "verus": [("u04_ids", ["exid_to_opid", "op_cursor_to_opid", "get_actor_safe", "new"]), ("u25_syncstate", ["encode", "parse", "decode", "lemma_state_roundtrip"]),
+                  ("u23_exid_order", "*"),
                   ("u04c_codecs", ["to_bytes", "try_from", "parse_0", "lemma_exid_roundtrip", "lemma_cursor_roundtrip", "leb128_u64", "take_n", "take1", "take_1",
                                    "lemma_dec_enc", "lemma_lebk", "lemma_decode_of_encode", "lemma_shape_is_canonical", "lemma_leb_shape", "lemma_leb_value", "lemma_leb_len_u64",
                                    "lemma_shape_unique", "lemma_valk_shift", "lemma_valk_prefix", "lemma_step", "lemma_step_top", "lemma_or_add", "lemma_or_add_top", "lemma_p128_shift"]),
                   ("u01_bloom", ["to_bytes", "parse", "default", "leb128_u32"]),
                   ("u05v_sync_flags", ["parse", "encode", "new", "contains", "set"])],
-        "kani": ["u04_changehash_try_from_slice", "u04_actorid_bytes_roundtrip", "u03_leb128_writer_matches_parser", "u05_flags_roundtrip", "u05_flags_set_contains", "u05_flags_parse_bytes", "u05_encode_many_prefix", "u01_roundtrip_1", "u01_roundtrip_3",
+        "kani": ["u04_changehash_try_from_slice", "u04_actorid_bytes_roundtrip", "u03_leb128_writer_matches_parser", "u05_flags_roundtrip", "u05_flags_set_contains", "u05_flags_parse_bytes", "u05_encode_many_prefix", "u05_message_encode_skeleton", "u01_roundtrip_1", "u01_roundtrip_3",
                  "u04_exid_try_from_total_q", "u06_leb_unsigned_roundtrip", "u06_leb_signed_roundtrip"],
         "not_under_contract": ["Cursor::from_str / Display and ExId Display / import_obj (string forms)", "sync::Message::encode/decode, State::encode/decode",
                                "ActorId / ChangeHash hex round trips", "OpSet::lookup_actor (assumed binary search)"],
